@@ -13,9 +13,13 @@
 
    The source script is chosen initially: NItems items, then a terminal or nothing (Ending).  WithUnsub adds the unsubscriber.
    ErrorDirect = TRUE models the seeded mistake "the error is delivered on the emitting thread instead of being posted"
-   (seeds C04r4-b / C01r5-a): TLC then shows the error overtaking queued items. *)
+   (seeds C04r4-b / C01r5-a): TLC then shows the error overtaking queued items.
+   Feedback = TRUE adds a feedback consumer: the subscriber's callback for item 1 pushes one more item (FB) into the source, i.e. the
+   WORKER posts a closure; it takes its turn in the queue.  InlineFromWorker = TRUE is the seeded mistake C09r12-a ("already on
+   the scheduler's thread: run the closure at once"): TLC then shows a callback running inside another one. *)
 EXTENDS Integers, Sequences, FiniteSets, TLC
-CONSTANTS NItems, Ending, WithUnsub, ErrorDirect      \* Ending \in {"c", "e", "none"}
+CONSTANTS NItems, Ending, WithUnsub, ErrorDirect,     \* Ending \in {"c", "e", "none"}
+          Feedback, InlineFromWorker
 (* --algorithm ObserveOn {
 variables
   queue = <<>>,            \* posted closures: <<kind, value>>
@@ -25,18 +29,23 @@ variables
   delivered = <<>>,        \* what the subscriber's callbacks saw, with the thread that ran them
   emitted = <<>>,          \* what the source emitted while `up` (in order)
   unsubReturned = FALSE, postedAfterUnsub = {},
-  workerDone = FALSE;
+  workerDone = FALSE,
+  nested = FALSE;          \* some callback ran while another one had not returned
 define {
+  FB == 100
   Script == [i \in 1..NItems |-> <<"n", i>>] \o (IF Ending = "none" THEN <<>> ELSE << <<Ending, 0>> >>)
   Kinds(s) == [i \in 1..Len(s) |-> <<s[i][1], s[i][2]>>]
   IsPrefix(a, b) == Len(a) <= Len(b) /\ \A i \in 1..Len(a) : a[i] = b[i]
   \* C09: source order, nothing invented, terminal last, all on the worker thread
-  OrderOK == IsPrefix(Kinds(delivered), Script)
+  Own(s) == SelectSeq(s, LAMBDA e : e[2] # FB)
+  OrderOK == IsPrefix(Own(Kinds(delivered)), Script)
+  NeverNested == ~nested                                   \* C09: never two callbacks at once
+  FedBackAtMostOnce == Len(SelectSeq(delivered, LAMBDA e : e[2] = FB)) <= 1
   OnWorker == \A i \in 1..Len(delivered) : delivered[i][3] = "worker"
   TerminalLast == \A i \in 1..Len(delivered) : delivered[i][1] \in {"c", "e"} => i = Len(delivered)
   \* nothing lost: without an unsubscriber, once everything is quiet the subscriber has the whole script
   AllDone == pc["emitter"] = "Done" /\ pc["worker"] = "Done" /\ pc["unsub"] = "Done"
-  NothingLost == (AllDone /\ ~WithUnsub /\ Ending # "none") => Kinds(delivered) = Script
+  NothingLost == (AllDone /\ ~WithUnsub /\ Ending # "none") => Own(Kinds(delivered)) = Script
   \* C05 / C09: nothing whose emission started after unsubscribe() returned is delivered
   NothingAfterUnsub == \A i \in 1..Len(delivered) : <<delivered[i][1], delivered[i][2]>> \notin postedAfterUnsub
   \* C15: the worker exits once the subscription ended (terminal or unsubscribe)
@@ -66,7 +75,16 @@ variables task = <<>>;
 w_wait: await queue # <<>> \/ aborted;                           \* cond.wait_while(queue empty && !abort)
         if (aborted) { goto w_exit } else { task := Head(queue); queue := Tail(queue) };
 w_run:  if (task[1] = "n") {
-          if (sub) { delivered := Append(delivered, <<"n", task[2], "worker">>) } else { finalize() }
+          if (sub) {
+            delivered := Append(delivered, <<"n", task[2], "worker">>);
+            if (Feedback /\ task[2] = 1 /\ up) {                 \* the callback calls next(FB) on the source: the worker posts
+              if (InlineFromWorker) {
+w_inl:          if (sub) { delivered := Append(delivered, <<"n", FB, "worker">>); nested := TRUE }     \* ... still inside the callback for item 1
+              } else {
+                queue := Append(queue, <<"n", FB>>)
+              }
+            }
+          } else { finalize() }
         } else {
           if (sub) { delivered := Append(delivered, <<task[1], 0, "worker">>); sub := FALSE };
 w_fin:    finalize();
@@ -83,21 +101,25 @@ u_ret:    unsubReturned := TRUE;
         }
 }
 } *)
-\* BEGIN TRANSLATION (chksum(pcal) = "7f965a7" /\ chksum(tla) = "582aef03")
+\* BEGIN TRANSLATION (chksum(pcal) = "d58469f3" /\ chksum(tla) = "7dfe0c0e")
 VARIABLES pc, queue, aborted, up, sub, delivered, emitted, unsubReturned, 
-          postedAfterUnsub, workerDone
+          postedAfterUnsub, workerDone, nested
 
 (* define statement *)
+FB == 100
 Script == [i \in 1..NItems |-> <<"n", i>>] \o (IF Ending = "none" THEN <<>> ELSE << <<Ending, 0>> >>)
 Kinds(s) == [i \in 1..Len(s) |-> <<s[i][1], s[i][2]>>]
 IsPrefix(a, b) == Len(a) <= Len(b) /\ \A i \in 1..Len(a) : a[i] = b[i]
 
-OrderOK == IsPrefix(Kinds(delivered), Script)
+Own(s) == SelectSeq(s, LAMBDA e : e[2] # FB)
+OrderOK == IsPrefix(Own(Kinds(delivered)), Script)
+NeverNested == ~nested
+FedBackAtMostOnce == Len(SelectSeq(delivered, LAMBDA e : e[2] = FB)) <= 1
 OnWorker == \A i \in 1..Len(delivered) : delivered[i][3] = "worker"
 TerminalLast == \A i \in 1..Len(delivered) : delivered[i][1] \in {"c", "e"} => i = Len(delivered)
 
 AllDone == pc["emitter"] = "Done" /\ pc["worker"] = "Done" /\ pc["unsub"] = "Done"
-NothingLost == (AllDone /\ ~WithUnsub /\ Ending # "none") => Kinds(delivered) = Script
+NothingLost == (AllDone /\ ~WithUnsub /\ Ending # "none") => Own(Kinds(delivered)) = Script
 
 NothingAfterUnsub == \A i \in 1..Len(delivered) : <<delivered[i][1], delivered[i][2]>> \notin postedAfterUnsub
 
@@ -106,7 +128,7 @@ WorkerExits == ((Ending # "none") \/ WithUnsub) ~> workerDone
 VARIABLES k, task
 
 vars == << pc, queue, aborted, up, sub, delivered, emitted, unsubReturned, 
-           postedAfterUnsub, workerDone, k, task >>
+           postedAfterUnsub, workerDone, nested, k, task >>
 
 ProcSet == ({"emitter"}) \cup ({"worker"}) \cup ({"unsub"})
 
@@ -120,6 +142,7 @@ Init == (* Global variables *)
         /\ unsubReturned = FALSE
         /\ postedAfterUnsub = {}
         /\ workerDone = FALSE
+        /\ nested = FALSE
         (* Process emitter *)
         /\ k = [self \in {"emitter"} |-> 1]
         (* Process worker *)
@@ -133,8 +156,8 @@ e_loop(self) == /\ pc[self] = "e_loop"
                       THEN /\ pc' = [pc EXCEPT ![self] = "e_post"]
                       ELSE /\ pc' = [pc EXCEPT ![self] = "Done"]
                 /\ UNCHANGED << queue, aborted, up, sub, delivered, emitted, 
-                                unsubReturned, postedAfterUnsub, workerDone, k, 
-                                task >>
+                                unsubReturned, postedAfterUnsub, workerDone, 
+                                nested, k, task >>
 
 e_post(self) == /\ pc[self] = "e_post"
                 /\ IF up
@@ -151,7 +174,7 @@ e_post(self) == /\ pc[self] = "e_post"
                       ELSE /\ pc' = [pc EXCEPT ![self] = "e_next"]
                            /\ UNCHANGED << queue, emitted, postedAfterUnsub >>
                 /\ UNCHANGED << aborted, up, sub, delivered, unsubReturned, 
-                                workerDone, k, task >>
+                                workerDone, nested, k, task >>
 
 e_direct(self) == /\ pc[self] = "e_direct"
                   /\ IF sub
@@ -164,14 +187,14 @@ e_direct(self) == /\ pc[self] = "e_direct"
                   /\ queue' = <<>>
                   /\ pc' = [pc EXCEPT ![self] = "e_next"]
                   /\ UNCHANGED << emitted, unsubReturned, postedAfterUnsub, 
-                                  workerDone, k, task >>
+                                  workerDone, nested, k, task >>
 
 e_next(self) == /\ pc[self] = "e_next"
                 /\ k' = [k EXCEPT ![self] = k[self] + 1]
                 /\ pc' = [pc EXCEPT ![self] = "e_loop"]
                 /\ UNCHANGED << queue, aborted, up, sub, delivered, emitted, 
                                 unsubReturned, postedAfterUnsub, workerDone, 
-                                task >>
+                                nested, task >>
 
 emitter(self) == e_loop(self) \/ e_post(self) \/ e_direct(self)
                     \/ e_next(self)
@@ -185,18 +208,27 @@ w_wait(self) == /\ pc[self] = "w_wait"
                            /\ queue' = Tail(queue)
                            /\ pc' = [pc EXCEPT ![self] = "w_run"]
                 /\ UNCHANGED << aborted, up, sub, delivered, emitted, 
-                                unsubReturned, postedAfterUnsub, workerDone, k >>
+                                unsubReturned, postedAfterUnsub, workerDone, 
+                                nested, k >>
 
 w_run(self) == /\ pc[self] = "w_run"
                /\ IF task[self][1] = "n"
                      THEN /\ IF sub
                                 THEN /\ delivered' = Append(delivered, <<"n", task[self][2], "worker">>)
-                                     /\ UNCHANGED << queue, aborted, up >>
+                                     /\ IF Feedback /\ task[self][2] = 1 /\ up
+                                           THEN /\ IF InlineFromWorker
+                                                      THEN /\ pc' = [pc EXCEPT ![self] = "w_inl"]
+                                                           /\ queue' = queue
+                                                      ELSE /\ queue' = Append(queue, <<"n", FB>>)
+                                                           /\ pc' = [pc EXCEPT ![self] = "w_back"]
+                                           ELSE /\ pc' = [pc EXCEPT ![self] = "w_back"]
+                                                /\ queue' = queue
+                                     /\ UNCHANGED << aborted, up >>
                                 ELSE /\ up' = FALSE
                                      /\ aborted' = TRUE
                                      /\ queue' = <<>>
+                                     /\ pc' = [pc EXCEPT ![self] = "w_back"]
                                      /\ UNCHANGED delivered
-                          /\ pc' = [pc EXCEPT ![self] = "w_back"]
                           /\ sub' = sub
                      ELSE /\ IF sub
                                 THEN /\ delivered' = Append(delivered, <<task[self][1], 0, "worker">>)
@@ -206,7 +238,7 @@ w_run(self) == /\ pc[self] = "w_run"
                           /\ pc' = [pc EXCEPT ![self] = "w_fin"]
                           /\ UNCHANGED << queue, aborted, up >>
                /\ UNCHANGED << emitted, unsubReturned, postedAfterUnsub, 
-                               workerDone, k, task >>
+                               workerDone, nested, k, task >>
 
 w_fin(self) == /\ pc[self] = "w_fin"
                /\ up' = FALSE
@@ -214,37 +246,48 @@ w_fin(self) == /\ pc[self] = "w_fin"
                /\ queue' = <<>>
                /\ pc' = [pc EXCEPT ![self] = "w_back"]
                /\ UNCHANGED << sub, delivered, emitted, unsubReturned, 
+                               postedAfterUnsub, workerDone, nested, k, task >>
+
+w_inl(self) == /\ pc[self] = "w_inl"
+               /\ IF sub
+                     THEN /\ delivered' = Append(delivered, <<"n", FB, "worker">>)
+                          /\ nested' = TRUE
+                     ELSE /\ TRUE
+                          /\ UNCHANGED << delivered, nested >>
+               /\ pc' = [pc EXCEPT ![self] = "w_back"]
+               /\ UNCHANGED << queue, aborted, up, sub, emitted, unsubReturned, 
                                postedAfterUnsub, workerDone, k, task >>
 
 w_back(self) == /\ pc[self] = "w_back"
                 /\ pc' = [pc EXCEPT ![self] = "w_wait"]
                 /\ UNCHANGED << queue, aborted, up, sub, delivered, emitted, 
-                                unsubReturned, postedAfterUnsub, workerDone, k, 
-                                task >>
+                                unsubReturned, postedAfterUnsub, workerDone, 
+                                nested, k, task >>
 
 w_exit(self) == /\ pc[self] = "w_exit"
                 /\ workerDone' = TRUE
                 /\ pc' = [pc EXCEPT ![self] = "Done"]
                 /\ UNCHANGED << queue, aborted, up, sub, delivered, emitted, 
-                                unsubReturned, postedAfterUnsub, k, task >>
+                                unsubReturned, postedAfterUnsub, nested, k, 
+                                task >>
 
-worker(self) == w_wait(self) \/ w_run(self) \/ w_fin(self) \/ w_back(self)
-                   \/ w_exit(self)
+worker(self) == w_wait(self) \/ w_run(self) \/ w_fin(self) \/ w_inl(self)
+                   \/ w_back(self) \/ w_exit(self)
 
 u_go(self) == /\ pc[self] = "u_go"
               /\ IF WithUnsub
                     THEN /\ pc' = [pc EXCEPT ![self] = "u_clear"]
                     ELSE /\ pc' = [pc EXCEPT ![self] = "Done"]
               /\ UNCHANGED << queue, aborted, up, sub, delivered, emitted, 
-                              unsubReturned, postedAfterUnsub, workerDone, k, 
-                              task >>
+                              unsubReturned, postedAfterUnsub, workerDone, 
+                              nested, k, task >>
 
 u_clear(self) == /\ pc[self] = "u_clear"
                  /\ sub' = FALSE
                  /\ pc' = [pc EXCEPT ![self] = "u_fin"]
                  /\ UNCHANGED << queue, aborted, up, delivered, emitted, 
                                  unsubReturned, postedAfterUnsub, workerDone, 
-                                 k, task >>
+                                 nested, k, task >>
 
 u_fin(self) == /\ pc[self] = "u_fin"
                /\ up' = FALSE
@@ -252,13 +295,13 @@ u_fin(self) == /\ pc[self] = "u_fin"
                /\ queue' = <<>>
                /\ pc' = [pc EXCEPT ![self] = "u_ret"]
                /\ UNCHANGED << sub, delivered, emitted, unsubReturned, 
-                               postedAfterUnsub, workerDone, k, task >>
+                               postedAfterUnsub, workerDone, nested, k, task >>
 
 u_ret(self) == /\ pc[self] = "u_ret"
                /\ unsubReturned' = TRUE
                /\ pc' = [pc EXCEPT ![self] = "Done"]
                /\ UNCHANGED << queue, aborted, up, sub, delivered, emitted, 
-                               postedAfterUnsub, workerDone, k, task >>
+                               postedAfterUnsub, workerDone, nested, k, task >>
 
 unsub(self) == u_go(self) \/ u_clear(self) \/ u_fin(self) \/ u_ret(self)
 
